@@ -16,8 +16,9 @@ Model: Dispatch/Model.lean (`run`), equality: Dispatch/Equal.lean.  Helper lemma
 Dispatch/Lemmas.lean.  The theorems quantify over every configuration `c` (bounds, callback
 programs of any shape and nesting), every world `w` (values, registered watchers, flags, queues)
 and every amount of fuel; `r ≠ oof` / `r = ok` is the partial-correctness side condition.
-Not modelled here (see DESIGN.md): Parameter-attribute (slot) watchers, class-level watchers,
-kwargs mode.
+Event parameters are modelled (`Cfg.events`).  Class-level assignment runs the same code on the class
+object (the harness runs the programs at both levels).  Not modelled here (see DESIGN.md):
+Parameter-attribute (slot) watchers, kwargs mode.
 -/
 import ParamVerif.Dispatch.Lemmas
 import ParamVerif.Dispatch.EqualLemmas
@@ -35,8 +36,8 @@ watchers, once each, in precedence-then-registration order, each with the single
 `(p, value before, v)` typed from the trigger flag and the watcher. Whatever else is in the log
 at that level was delivered by the flush that ends the assignment. -/
 theorem assignment_reaches_each_watcher_once (c : Cfg) (f : Nat) (w : World) (p : Nat) (v : Int)
-    (hb : w.batch = false) (hok : (run c f (.setAttr p v) w).1 = .ok) :
-    (callSigs (run c f (.setAttr p v) w).2.2).filter (fun s => !s.2.2) =
+    (hb : w.batch = false) (hok : (run c f (.setPlain p v) w).1 = .ok) :
+    (callSigs (run c f (.setPlain p v) w).2.2).filter (fun s => !s.2.2) =
       (expectedFor w p (getVal w p) v).map
         (fun wt => (wt.id, [typed w.trigger wt ⟨p, getVal w p, v⟩], false)) := by
   cases f with
@@ -48,7 +49,7 @@ theorem assignment_reaches_each_watcher_once (c : Cfg) (f : Nat) (w : World) (p 
     have hff := fun w2 => flush_sigs_not_direct (flush_only_flush_calls c f .flush w2 (Or.inl rfl))
     have hexp : expectedFor w p (getVal w p) v =
         (sortByPrec (regsFor w p)).filter (fun wt => passes w.trigger wt ⟨p, getVal w p, v⟩) := rfl
-    generalize hrun : run c (f+1) (.setAttr p v) w = out at hok ⊢
+    generalize hrun : run c (f+1) (.setPlain p v) w = out at hok ⊢
     simp only [run] at hrun
     split at hrun
     · subst hrun; simp at hok
@@ -76,6 +77,20 @@ theorem assignment_reaches_each_watcher_once (c : Cfg) (f : Nat) (w : World) (p 
           subst hrun
           simp only [callSigs_append, List.filter_append, hff w2, List.append_nil, hsh rfl, hexp]
           simp [List.filter_map, Function.comp_def]
+
+/-- `obj.p = v` runs the ordinary setter `setPlain` for every parameter type; an Event parameter
+additionally resets itself afterwards, which adds nothing to the log.  So the theorem above speaks
+about every assignment. -/
+theorem assignment_log_is_the_setter's (c : Cfg) (f : Nat) (w : World) (p : Nat) (v : Int) :
+    (run c (f + 1) (.setAttr p v) w).2.2 = (run c f (.setPlain p v) w).2.2 ∧
+    (run c (f + 1) (.setAttr p v) w).1 = (run c f (.setPlain p v) w).1 := by
+  simp only [run]
+  split
+  · generalize run c f (.setPlain p v) w = d
+    obtain ⟨r1, w1, o1⟩ := d
+    cases r1 <;> simp
+    split <;> simp
+  · exact ⟨rfl, rfl⟩
 
 /-- **C03 (the object already shows the new value).**  The value is installed before the first
 watcher is considered: the dispatch loop of `p := v` starts in a world where `p` holds `v`. -/
@@ -177,9 +192,9 @@ def exWorld : World :=
   { vals := [1, 2], batch := false, trigger := false, events := [], queued := [],
     regs := [⟨0, [1], true, false, 1, 0⟩, ⟨1, [1, 0], false, false, 0, 1⟩, ⟨2, [0], true, true, 0, 1⟩] }
 
-example : exWorld.batch = false ∧ (run exCfg 50 (.setAttr 1 7) exWorld).1 = .ok := by decide
+example : exWorld.batch = false ∧ (run exCfg 50 (.setPlain 1 7) exWorld).1 = .ok := by decide
 -- watcher 1 (precedence 0) before watcher 0 (precedence 1); watcher 0's body assigns p0, dispatched depth-first
-example : (callSigs (run exCfg 50 (.setAttr 1 7) exWorld).2.2).map (·.1) = [1, 0] := by decide
+example : (callSigs (run exCfg 50 (.setPlain 1 7) exWorld).2.2).map (·.1) = [1, 0] := by decide
 example : (expectedFor exWorld 1 2 2).map (·.id) = [1] := by decide   -- same value: changes-only watcher 0 skipped
 
 example : plain (.dict [("k", .list [.num 1, .str "x", .none])]) = true ∧
